@@ -488,16 +488,31 @@ def strip_attr_edits(src):
     return out
 
 
+class Hole:
+    """a placeholder: name None = positional; debug = `{:?}` (Debug formatting)"""
+    def __init__(self, name, debug):
+        self.name, self.debug = name, debug
+
+
 def split_format_literal(lit):
     """-> (pieces, holes) for a format-string literal token: pieces are the literal texts around the placeholders, holes[i] is None for a
     positional `{}` or the identifier of an inline / named argument `{name}`.  None when the literal uses anything else (`{:?}`, `{0}`,
     width / precision ...): such a site is not rewritten."""
-    if not (lit.startswith('"') and lit.endswith('"')):
+    raw = False
+    m_ = re.match(r'r(#*)"', lit)
+    if m_:
+        h = len(m_.group(1))
+        if not lit.endswith('"' + '#' * h):
+            return None
+        raw, inner_text = True, lit[2 + h:len(lit) - 1 - h]
+    elif lit.startswith('"') and lit.endswith('"'):
+        inner_text = lit[1:-1]
+    else:
         return None
-    body, pieces, holes, cur, i = lit[1:-1], [], [], '', 0
+    body, pieces, holes, cur, i = inner_text, [], [], '', 0
     while i < len(body):
         ch = body[i]
-        if ch == '\\':
+        if ch == '\\' and not raw:
             cur += body[i:i + 2]; i += 2; continue
         if ch == '{':
             if body[i:i + 2] == '{{':
@@ -506,10 +521,13 @@ def split_format_literal(lit):
             if j < 0:
                 return None
             inner = body[i + 1:j]
+            dbg = inner.endswith(':?')
+            if dbg:
+                inner = inner[:-2]
             if inner == '':
-                holes.append(None)
+                holes.append(Hole(None, dbg))
             elif re.fullmatch(r'[A-Za-z_][A-Za-z0-9_]*', inner):
-                holes.append(inner)
+                holes.append(Hole(inner, dbg))
             else:
                 return None
             pieces.append(cur); cur = ''; i = j + 1; continue
@@ -519,6 +537,9 @@ def split_format_literal(lit):
             return None
         cur += ch; i += 1
     pieces.append(cur)
+    if raw:
+        # re-spell every piece as an ordinary literal (a raw literal has no escapes: quote and backslash need one, line breaks become \\n)
+        pieces = [p_.replace('\\', '\\\\').replace('"', '\\"').replace('\n', '\\n').replace('\t', '\\t') for p_ in pieces]
     return pieces, holes
 
 
@@ -543,17 +564,32 @@ def auto_ops(c, rules, prefix):
     if 'fmt' in rules:
         ordinal = 0
         for k in range(len(st) - 3):
-            if st[k] == 'format' and st[k + 1] == '!' and st[k + 2] == '(' and _free_standing(st, k):
+            if st[k] in ('format', 'write', 'writeln') and st[k + 1] == '!' and st[k + 2] == '(' and _free_standing(st, k):
                 close = match_close(st, k + 2)
-                name = 'fmt_%s_%d' % (prefix, ordinal)
+                writer = None
+                lit_at = k + 3
+                if st[k] != 'format':
+                    # write!(w, "lit", ..) / writeln!(w, "lit", ..) / writeln!(w): the writer must be a plain identifier
+                    if not re.fullmatch(r'[A-Za-z_][A-Za-z0-9_]*', st[k + 3]):
+                        continue
+                    writer = st[k + 3]
+                    if st[k + 4] == ')' and st[k] == 'writeln':
+                        name = 'wfmt_%s_%d' % (prefix, ordinal); ordinal += 1
+                        site = {'name': name, 'pieces': [''], 'nargs': 0, 'literal': '(none)', 'writer': True, 'newline': True}
+                        out.append((sig[k][1], sig[close][2], 'rep', '%s(%s)' % (name, writer), {'tag': 'T14', 'fmt_site': site}))
+                        continue
+                    if st[k + 4] != ',':
+                        continue
+                    lit_at = k + 5
+                name = '%s_%s_%d' % ('wfmt' if writer else 'fmt', prefix, ordinal)
                 ordinal += 1
-                parsed = split_format_literal(st[k + 3])
+                parsed = split_format_literal(st[lit_at])
                 if parsed is None:
                     continue   # left as is: reported as a construct without a usable specification (undecided, never an alarm)
                 pieces, holes = parsed
                 # top-level commas
                 commas, depth = [], 0
-                for j in range(k + 3, close):
+                for j in range(lit_at, close):
                     t = st[j]
                     if t in OPEN:
                         depth += 1
@@ -573,30 +609,31 @@ def auto_ops(c, rules, prefix):
                         named[st[a]] = (a + 2, b)
                     else:
                         positional.append((a, b))
-                if len(positional) != sum(1 for h in holes if h is None):
+                if len(positional) != sum(1 for h in holes if h.name is None):
                     continue
                 # the call's arguments in placeholder order, as source text of the CURRENT file
                 texts, pi = [], 0
                 for h in holes:
-                    if h is None:
+                    if h.name is None:
                         a, b = positional[pi]; pi += 1
                         texts.append(c.text[sig[a][1]:sig[b - 1][2]])
-                    elif h in named:
-                        a, b = named[h]
+                    elif h.name in named:
+                        a, b = named[h.name]
                         texts.append(c.text[sig[a][1]:sig[b - 1][2]])
                     else:
-                        texts.append(h)     # inline captured variable
-                site = {'name': name, 'pieces': pieces, 'nargs': len(holes), 'literal': st[k + 3]}
-                simple = all(h is None for h in holes) and not named
+                        texts.append(h.name)     # inline captured variable
+                site = {'name': name, 'pieces': pieces, 'nargs': len(holes), 'debug': [h.debug for h in holes], 'literal': st[lit_at], 'writer': bool(writer), 'newline': st[k] == 'writeln'}
+                simple = all(h.name is None for h in holes) and not named
+                wpre = (writer + ', ') if writer else ''
                 if simple and holes:
                     # keep every argument expression in place: only the macro head, the separators and the closing parenthesis change
-                    out.append((sig[k][1], sig[seps[0]][2], 'rep', '%s(&(' % name, {'tag': 'T14', 'fmt_site': site}))
+                    out.append((sig[k][1], sig[seps[0]][2], 'rep', '%s(%s&(' % (name, wpre), {'tag': 'T14', 'fmt_site': site}))
                     for j in seps[1:]:
                         out.append((sig[j][1], sig[j][2], 'rep', '), &(', {'tag': 'T14'}))
                     out.append((sig[commas[-1]][1] if trailing else sig[close][1], sig[close][2], 'rep', '))', {'tag': 'T14'}))
                 else:
                     # inline / named arguments (or none): the whole macro call is replaced by the call with the arguments in placeholder order
-                    out.append((sig[k][1], sig[close][2], 'rep', '%s(%s)' % (name, ', '.join('&(%s)' % t for t in texts)), {'tag': 'T14', 'fmt_site': site}))
+                    out.append((sig[k][1], sig[close][2], 'rep', '%s(%s%s)' % (name, wpre if texts else (writer or ''), ', '.join('&(%s)' % t for t in texts)), {'tag': 'T14', 'fmt_site': site}))
     for rule in rules:
         # ('tok', 'a.b()', 'f(a)', tag): every occurrence of the token sequence in the current text is rewritten (current-anchored,
         # so that deleting or duplicating an occurrence does not lose an anchor)
@@ -606,6 +643,56 @@ def auto_ops(c, rules, prefix):
             for k in range(len(st) - n + 1):
                 if st[k:k + n] == pat and _free_standing(st, k):
                     out.append((sig[k][1], sig[k + n - 1][2], 'rep', rule[2], {'tag': rule[3] if len(rule) > 3 else 'T15'}))
+    if 'then_some' in rules:
+        # T14b: B.then_some(L)[.or_else(|| C.then_some(M))]*.unwrap_or_default()  ->  (if B { L } [else if C { M }]* else { "" })
+        # for B an identifier or a parenthesised expression; B, C, L, M stay verbatim
+        # (std: bool::then_some, Option::or_else, Option::unwrap_or_default, <&str as Default>::default() == "")
+        for k in range(1, len(st) - 8):
+            if not (st[k] == '.' and st[k + 1] == 'then_some' and st[k + 2] == '(' and st[k + 3].startswith('"') and st[k + 4] == ')'):
+                continue
+            if st[k - 1] == ')':
+                depth, j = 0, k - 1
+                while j >= 0:
+                    if st[j] in CLOSE:
+                        depth += 1
+                    elif st[j] in OPEN:
+                        depth -= 1
+                        if depth == 0:
+                            break
+                    j -= 1
+                if j < 0 or st[j] != '(' or (j > 0 and re.fullmatch(r'[A-Za-z_][A-Za-z0-9_]*', st[j - 1])):
+                    continue
+                start = j
+            elif re.fullmatch(r'[A-Za-z_][A-Za-z0-9_]*', st[k - 1]) and _free_standing(st, k - 1):
+                start = k - 1
+            else:
+                continue
+            ops_ = [(sig[start][1], sig[start][1], 'ins', '(if ', {'tag': 'T14b'})]
+            pos = k            # index of the '.' before then_some
+            lit_ = st[k + 3]
+            ok = True
+            while True:
+                after = pos + 5    # token after `.then_some(LIT)`
+                if st[after] == '.' and st[after + 1] == 'unwrap_or_default' and st[after + 2] == '(' and st[after + 3] == ')':
+                    ops_.append((sig[pos][1], sig[after + 3][2], 'rep', ' { %s } else { "" })' % lit_, {'tag': 'T14b'}))
+                    break
+                if st[after] == '.' and st[after + 1] == 'or_else' and st[after + 2] == '(' and st[after + 3] == '|' and st[after + 4] == '|':
+                    oc = match_close(st, after + 2)
+                    # inside: COND . then_some ( LIT )
+                    if not (st[oc - 1] == ')' and st[oc - 2].startswith('"') and st[oc - 3] == '(' and st[oc - 4] == 'then_some' and st[oc - 5] == '.'):
+                        ok = False; break
+                    ops_.append((sig[pos][1], sig[after + 4][2], 'rep', ' { %s } else if ' % lit_, {'tag': 'T14b'}))
+                    # the condition tokens after `||` up to `.then_some` stay verbatim; then continue from that then_some
+                    lit_ = st[oc - 2]
+                    # replace `.then_some(LIT))` (incl. the or_else closing paren) together with what follows in the next round
+                    nxt = oc + 1
+                    if st[nxt] == '.' and st[nxt + 1] == 'unwrap_or_default' and st[nxt + 2] == '(' and st[nxt + 3] == ')':
+                        ops_.append((sig[oc - 5][1], sig[nxt + 3][2], 'rep', ' { %s } else { "" })' % lit_, {'tag': 'T14b'}))
+                        break
+                    ok = False; break
+                ok = False; break
+            if ok:
+                out.extend(ops_)
     if 'strlit' in rules:
         # T15: String construction from a literal or a named value: X.into() / X.to_string() / X.to_owned() / String::from(X), X a string literal
         # or an identifier -> txt_into(X) (contract: the same text; the argument must be str / String / a reference to one, else rustc rejects
@@ -619,6 +706,15 @@ def auto_ops(c, rules, prefix):
                 a, b = sig[k][1], sig[k + 4][2]
                 if not any(a < tb and ta < b for (ta, tb) in taken):
                     out.append((a, b, 'rep', 'txt_into(%s)' % x, {'tag': 'T15'}))
+            elif ident.match(x) and x not in ('Self', 'super', 'crate') and _free_standing(st, k):
+                # a field path a.b.c followed by .to_string() / .into() / .to_owned(): the same text, by reference
+                j = k
+                while j + 2 < len(st) and st[j + 1] == '.' and ident.match(st[j + 2]) and st[j + 3] != '(':
+                    j += 2
+                if j > k and j + 4 < len(st) and st[j + 1] == '.' and st[j + 2] in ('into', 'to_string', 'to_owned') and st[j + 3] == '(' and st[j + 4] == ')':
+                    a, b = sig[k][1], sig[j + 4][2]
+                    if not any(a < tb and ta < b for (ta, tb) in taken):
+                        out.append((a, b, 'rep', 'txt_into(&%s)' % c.text[sig[k][1]:sig[j][2]], {'tag': 'T15'}))
             if x == 'String' and st[k + 1] == ':' and st[k + 2] == ':' and st[k + 3] == 'from' and st[k + 4] == '(' and k + 6 < len(st) and st[k + 6] == ')' \
                     and (st[k + 5].startswith('"') or ident.match(st[k + 5])):
                 out.append((sig[k][1], sig[k + 6][2], 'rep', 'txt_into(%s)' % st[k + 5], {'tag': 'T15'}))
